@@ -112,6 +112,10 @@ func (m *TlvModel) GenEncodeInto(buf *bytes.Buffer) error {
 						wire[i] = make([]byte, l)
 					}
 				}
+				if len(wire) == 0 {
+					// Nothing to encode (all fields absent)
+					return wire
+				}
 				encoder.EncodeInto(value, wire)
 			{{else}}
 				wire := make(enc.Wire, 1)
